@@ -56,8 +56,9 @@ SIG_D = "F-C07d-qos0-dropped-unmarked-by-reconnect"
 SIG_E = "F-C07e-lost-qos0-reported-success"
 SIG_F = "F-C07f-inflight-negative-publish-during-reconnect"
 SIG_G = "F-C07g-popped-packet-written-on-new-socket"
+SIG_H = "F-C07h-appreconnect-new-socket-cleared-by-loop-thread"
 # a-e were fixed in /repo (c6905fd, 0ed8c5c, 189c9f8, 060dbc4): their stored schedules are regression replays that must pass
-EXPECTED_OPEN = (SIG_F, SIG_G)
+EXPECTED_OPEN = (SIG_F, SIG_G, SIG_H)
 LOCK_IDS = {"_mid_generate_mutex": 0, "_out_message_mutex": 1, "_in_callback_mutex": 2, "_callback_mutex": 3,
             "_msgtime_mutex": 4, "_in_message_mutex": 5, "_reconnect_delay_mutex": 6, "info_condition": 7}
 ROOT = os.path.dirname(os.path.dirname(os.path.abspath(__file__)))
@@ -427,6 +428,10 @@ def classify_error(e):
         return SIG_B
     if typ == "AttributeError" and "loop_stop" in where and "join" in (msg + where):
         return SIG_C
+    if typ == "AttributeError" and "NoneType" in msg and "reconnect" in where and "self._sock.setblocking" in where and e.get("thread") != "L":
+        # an APPLICATION thread is between `self._sock = self._create_socket()` and the next line of reconnect() while the
+        # loop thread, still handling the end of the old connection, runs _sock_close(): it closes and clears the NEW socket
+        return SIG_H
     fn = where.split(":")[1] if where.count(":") >= 2 else where
     return "internal-error:%s@%s" % (typ, fn)
 
